@@ -288,7 +288,7 @@ def data_move(eqn, ins, positions):
             a = x if isinstance(x, np.ndarray) else np.asarray(x)
             any_obj = any_obj or is_obj(a)
             ids = np.arange(len(pool), len(pool) + a.size, dtype=np.int64).reshape(a.shape)
-            pool.extend(a.reshape(-1).tolist() if not is_obj(a) else list(a.reshape(-1)))
+            pool.extend(a.reshape(-1).tolist() if not is_obj(a) else [e[()] if isinstance(e, np.ndarray) and e.shape == () else e for e in a.reshape(-1)])
             idx_ins.append(jnp.asarray(ids))
         else:
             if is_obj(x):
